@@ -83,7 +83,7 @@ StoreCmds ==
 Del(kr) == [Base("delete") EXCEPT !.keys = <<kr>>]
 DeleteCmds ==
   {Del(kr) : kr \in PlainKeys \cup OddKeys} \cup {Nr(Del(K("plain", "kh"))), Nr(Del(K("plain", "km")))}
-  \cup {Flt(Base("delete"), "tokens"), Flt(Del(K("plain", "kh")), "extra"), Flt(Del(K("plain", "kh")), "lfonly"),
+  \cup {Flt(Base("delete"), "tokens"), Flt(Del(K("plain", "kh")), "extra"), Flt(Del(K("plain", "kh")), "lfonly"), Flt(Del(K("plain", "kh")), "tok4"),
         WithCut(Del(K("plain", "kh")), "line")}
 
 Inc(verb, kr, d) == [Base(verb) EXCEPT !.keys = <<kr>>, !.delta = d]
@@ -91,7 +91,7 @@ IncrCmds ==
   {Inc("incr", kr, 5) : kr \in PlainKeys \cup OddKeys} \cup {Nr(Inc("incr", K("plain", "km"), 5)), Inc("incr", K("plain", "km"), -3)}
   \cup {Num(Inc("incr", K("plain", "km"), 0), "delta", cl) : cl \in {"nonnum", "over"}}
   \cup {Nr(Num(Inc("incr", K("plain", "km"), 0), "delta", "nonnum"))}
-  \cup {Flt(Inc("incr", K("plain", "km"), 5), f) : f \in {"tokens", "extra", "lfonly"}}
+  \cup {Flt(Inc("incr", K("plain", "km"), 5), f) : f \in {"tokens", "extra", "lfonly", "tok4"}}
   \cup {Inc("decr", K("plain", "km"), 5), Nr(Inc("decr", K("plain", "km"), 5)), Num(Inc("decr", K("plain", "km"), 0), "delta", "nonnum"),
         Flt(Inc("decr", K("plain", "km"), 5), "tokens")}
 
